@@ -29,12 +29,28 @@ type table struct {
 	name string
 	cols []string          // without the leading id
 	rows [][]value.Primary // without the leading id
+	noID bool              // cols / rows are the whole table (files: every cell is text)
 }
 
-func (t *table) width() int { return len(t.cols) + 1 }
+func (t *table) width() int {
+	if t.noID {
+		return len(t.cols)
+	}
+	return len(t.cols) + 1
+}
 
 func (t *table) full(i int) []value.Primary {
+	if t.noID {
+		return t.rows[i]
+	}
 	return append([]value.Primary{value.NewInteger(int64(i))}, t.rows[i]...)
+}
+
+func (t *table) colNames() []string {
+	if t.noID {
+		return t.cols
+	}
+	return append([]string{"id"}, t.cols...)
 }
 
 // ---------- plans ----------
@@ -48,6 +64,16 @@ type expr struct {
 	isCol     bool
 	side, idx int
 	lit       value.Primary
+	// a field reference written by NAME (resolved by the implementation and, independently, by the Lean model)
+	named        bool
+	rview, rname string
+}
+
+func (e expr) refText() string {
+	if e.rview == "" {
+		return e.rname
+	}
+	return e.rview + "." + e.rname
 }
 
 type cond struct {
@@ -134,6 +160,9 @@ func lit(p value.Primary) string {
 }
 
 func sqlExpr(e expr, ll, rl []col) string {
+	if e.named {
+		return e.refText()
+	}
 	if !e.isCol {
 		return lit(e.lit)
 	}
@@ -261,6 +290,13 @@ func (e *enc) val(p value.Primary) string {
 }
 
 func (e *enc) expr(x expr) []string {
+	if x.named {
+		v := x.rview
+		if v == "" {
+			v = "-"
+		}
+		return []string{"n", v, x.rname}
+	}
 	if x.isCol {
 		return []string{"c", strconv.Itoa(x.side), strconv.Itoa(x.idx)}
 	}
@@ -310,16 +346,20 @@ func (e *enc) cond(c *cond) []string {
 	return out
 }
 
+func (e *enc) tblIdx(t *table) int {
+	i, ok := e.tidx[t]
+	if !ok {
+		i = len(e.tables)
+		e.tidx[t] = i
+		e.tables = append(e.tables, t)
+	}
+	return i
+}
+
 func (e *enc) src(s *src) []string {
 	switch s.kind {
 	case 'T':
-		i, ok := e.tidx[s.t]
-		if !ok {
-			i = len(e.tables)
-			e.tidx[s.t] = i
-			e.tables = append(e.tables, s.t)
-		}
-		return []string{"T", strconv.Itoa(i)}
+		return []string{"T", strconv.Itoa(e.tblIdx(s.t))}
 	case 'G':
 		return []string{"G"}
 	case 'Q':
@@ -1322,6 +1362,8 @@ func run(seed int64, n int, dir string, _ []string) {
 	x.tables = nil
 
 	naturalMatrix(g, pr, o, n)
+	namedRefCases(g, pr, o, n)
+	precedenceSessions(g, o, n)
 	lawStreams(g, pr, o, n)
 }
 
